@@ -10,7 +10,7 @@
    [nodupk (map (dkey src) ds)]: its deposits are pairwise different (destination, nonce). *)
 From Coq Require Import List NArith Bool Permutation.
 Import ListNotations.
-From SygmaV Require Import Model.C17 Proofs.C17 Proofs.C17_Conc Proofs.C17_Script.
+From SygmaV Require Import Model.C17 Proofs.C17 Proofs.C17_Conc Proofs.C17_Script Proofs.C17_Chan.
 Local Open Scope N_scope.
 
 (* A retry re-emits those and only those deposits of the block that are selected (destination and
@@ -291,6 +291,39 @@ Qed.
 Theorem C17_is_executed_copies_agree : is_executed_v1 = is_executed_retry.
 Proof. exact is_executed_v1_eq. Qed.
 Print Assumptions C17_is_executed_copies_agree.
+
+(* The message channel.  The handlers hand the re-emitted batches over with a blocking send, so what
+   the reader gets does not depend on the channel's capacity or on when the reader comes to its
+   receive: for EVERY capacity and EVERY schedule of sender and reader steps, what the reader has, what
+   is in the buffer and what the handler still offers is the handler's batch list, in order (nothing
+   lost, nothing twice); once everything is handed over and the buffer is empty the reader has exactly
+   that list; on the unbuffered channel a reader that comes to its receive only after the sender got
+   to its send gets every batch.  (That is why the cases of the correspondence run that differ only in
+   how the channel is read - chan.go - have the same expected observation.)  A send that gives up
+   instead of waiting (select/default) loses the batch under that same schedule. *)
+Theorem C17_chan_blocking_conserves : forall cap sched bs,
+  chan_all (chan_run true cap sched (chan_init bs)) = bs.
+Proof. exact chan_blocking_conserves. Qed.
+Print Assumptions C17_chan_blocking_conserves.
+
+Theorem C17_chan_blocking_complete : forall cap sched bs,
+  c_pending (chan_run true cap sched (chan_init bs)) = [] ->
+  c_queue (chan_run true cap sched (chan_init bs)) = [] ->
+  c_got (chan_run true cap sched (chan_init bs)) = bs.
+Proof. exact chan_blocking_complete. Qed.
+Print Assumptions C17_chan_blocking_complete.
+
+Theorem C17_chan_late_reader_delivers : forall bs,
+  chan_run true 0 (late_sched (length bs)) (chan_init bs) = mkChan [] [] bs false.
+Proof. exact chan_late_reader_delivers. Qed.
+Print Assumptions C17_chan_late_reader_delivers.
+
+Theorem C17_chan_nonblocking_refuted :
+  exists bs, c_got (chan_run false 0 (late_sched (length bs)) (chan_init bs)) <> bs
+             /\ c_pending (chan_run false 0 (late_sched (length bs)) (chan_init bs)) = []
+             /\ c_queue (chan_run false 0 (late_sched (length bs)) (chan_init bs)) = [].
+Proof. exact chan_nonblocking_refuted. Qed.
+Print Assumptions C17_chan_nonblocking_refuted.
 
 (* The code as found: one read error in proposalsForExecution and the next delivery blocks forever;
    a failed second execution of a released proposal overwrites "executed" and the next retry
